@@ -2,7 +2,7 @@ SPECIFICATION Spec
 CONSTANTS
   Names <- UNames
   Queries <- UQueries
-  OpTypes = {"NS", "A"}
+  OpTypes = {"NS", "A", "CNAME"}
   RdIds = {1}
   LoadSets <- MCLoadSets
   MaxOps = 3
